@@ -361,6 +361,40 @@ SequenceLaws ==
   /\ \A a \in 0..r : /\ OnnxConcatFromSequence(<<x>>, a, TRUE) = OnnxUnsqueeze(x, <<a>>)
                      /\ OnnxConcatFromSequence(<<x, x>>, a - (r + 1), TRUE) = OnnxConcatFromSequence(<<x, x>>, a, TRUE)
   /\ ChunkSizes(5, 2) = <<2, 2, 1>> /\ ChunkSizes(4, 2) = <<2, 2>> /\ ChunkSizes(0, 2) = <<>>
+\* Pooling output extent (the ONNX formula + "windows that would start in the
+\* right padded region are ignored"), checked on the whole small parameter grid.
+ASSUME PoolSizeLaws ==
+  \A in \in 1..8, k \in 1..4, st \in 1..3, pb \in 0..2, pe \in 0..2, d \in {1, 2} :
+    LET dk == (k - 1) * d + 1
+        pd == [b |-> <<pb>>, e |-> <<pe>>]
+        fo == PoolOutDims(<<in>>, <<k>>, <<st>>, <<d>>, pd, FALSE)[1]
+        co == PoolOutDims(<<in>>, <<k>>, <<st>>, <<d>>, pd, TRUE)[1]
+        total == in + pb + pe
+    IN (total >= dk /\ pb < dk /\ pe < dk) =>
+         \* floor: every window lies inside the padded input and one more would not
+         /\ fo >= 1 /\ (fo - 1) * st + dk <= total /\ fo * st + dk > total
+         \* ceil: at most one extra (partial) window, and only if it starts left of the end padding
+         /\ co = fo + (IF (total - dk) % st # 0 /\ fo * st < in + pb THEN 1 ELSE 0)
+         \* every window starts inside the input or the begin padding, and (d = 1) holds an input element
+         /\ \A j \in 0..(co - 1) : j * st < in + pb
+         /\ d = 1 => \A j \in 0..(co - 1) : PoolWindow(<<in>>, <<k>>, <<st>>, <<1>>, <<pb>>, <<j>>) # <<>>
+         \* auto_pad SAME_*: ceil(in / stride) whatever ceil_mode says, total padding split as documented
+         /\ \A auto \in {"SAME_UPPER", "SAME_LOWER"} :
+              LET sp == ConvPads(auto, <<in>>, <<k>>, <<st>>, <<d>>, <<0, 0>>) IN
+              /\ PoolOutDims(<<in>>, <<k>>, <<st>>, <<d>>, sp, FALSE)[1] = CeilDiv(in, st)
+              /\ PoolOutDims(<<in>>, <<k>>, <<st>>, <<d>>, sp, TRUE)[1] = CeilDiv(in, st)
+              /\ (IF auto = "SAME_UPPER" THEN sp.e[1] - sp.b[1] ELSE sp.b[1] - sp.e[1]) \in {0, 1}
+ASSUME QuantizeSpotChecks ==
+  \* ties go to even BEFORE the zero point is added; saturation after
+  /\ OnnxQuantizeLinearD(Vec("f32", <<1, 3, 5, -1, -3>>), 2, Scalar("f32", 1), Scalar("i8", 3), 1).data = <<3, 5, 5, 3, 1>>
+  /\ OnnxQuantizeLinearD(Vec("f32", <<1, 3, 5>>), 1, Scalar("f32", 2), Scalar("u8", 1), 1).data = <<1, 3, 3>>
+  /\ OnnxQuantizeLinearD(Vec("f32", <<600, -600, 509, 511>>), 2, Scalar("f32", 1), NoT, 1).data = <<255, 0, 254, 255>>
+  /\ OnnxQuantizeLinearD(Vec("f32", <<255, 257, -257, -259>>), 2, Scalar("f32", 1), Scalar("i8", 0), 1).data = <<127, 127, -128, -128>>
+  \* DynamicQuantizeLinear: x in [-64, 63.5] (quarters) -> scale 1/2, zero point 128
+  /\ LET q == OnnxDynamicQuantizeLinear(Vec("f32", <<-256, 254, 1, 3, 0>>), 4) IN
+     /\ q.scale = [n |-> 510, d |-> 1020] /\ q.zp.data = <<128>>
+     /\ q.y.data = <<0, 255, 128, 130, 128>>            \* 0.25/0.5 = 0.5 -> 0 ; 0.75/0.5 = 1.5 -> 2
+  /\ LET q == OnnxDynamicQuantizeLinear(Vec("f32", <<0, 510, 1, 3>>), 2) IN q.zp.data = <<0>> /\ q.y.data = <<0, 255, 0, 2>>
 ASSUME NearestSpotChecks ==
   /\ NearestIndex("round_prefer_floor", [p |-> 1, q |-> 2], 9) = 0 /\ NearestIndex("round_prefer_ceil", [p |-> 1, q |-> 2], 9) = 1
   /\ NearestIndex("round_prefer_floor", [p |-> 3, q |-> 4], 9) = 1 /\ NearestIndex("round_prefer_ceil", [p |-> 1, q |-> 4], 9) = 0
